@@ -112,6 +112,8 @@ pub struct Cfg
     pub pct_nested_gc: u64,
     /// driver batches with the revoke-then-register-the-same-trigger pair
     pub pct_rereg: u64,
+    /// instances with the double-self-send pattern
+    pub pct_double_self: u64,
 }
 
 fn wset(pairs: &[(K, u32)]) -> [u32; NK] { let mut w = [0u32; NK]; for (k, v) in pairs { w[*k as usize] = *v; } w }
@@ -164,6 +166,7 @@ pub fn base_cfg() -> Cfg
         pct_payload_sig: 12,
         pct_nested_gc: 4,
         pct_rereg: 4,
+        pct_double_self: 3,
     }
 }
 
@@ -198,6 +201,7 @@ pub fn profile(name: &str) -> Cfg
             c.name = if name == "C02" { "C02" } else if name == "C09" { "C09" } else { "C13" };
             bump(&mut c, &[(K::Run, 18), (K::SysEvent, 18), (K::Broadcast, 10), (K::Kill, 4), (K::ReturnErr, 4), (K::Probe, 3), (K::Register, 2), (K::On, 1), (K::Once, 1)]);
             c.pct_self_target = 55;
+            c.pct_double_self = 15;
             c.ops_per_script = (1, 4);
             c.runs_per_inst = (2, 4);
             c.pct_fallible = 30;
@@ -223,6 +227,7 @@ pub fn profile(name: &str) -> Cfg
             bump(&mut c, &[(K::Run, 8), (K::SysEvent, 20), (K::Broadcast, 16), (K::EntityEvent, 16), (K::Mutate, 10), (K::Insert, 6), (K::TriggerRes, 4), (K::Kill, 2), (K::Remove, 4), (K::Despawn, 2)]);
             c.pre_insts = (2, 3);
             c.pct_self_target = 70;
+            c.pct_double_self = 10;
             c.ops_per_script = (2, 5);
             c.runs_per_inst = (2, 4);
             c.initial_bundle = (3, 6);
@@ -539,6 +544,18 @@ impl<'a> G<'a>
             }
             v.push(ops);
         }
+        // a system that sends itself two events while it runs, and whose first replay sends itself another one: the new one runs
+        // right after that replay, ahead of the older pending one (C09), each with its own data (C03, C12)
+        if let Some(m) = me
+        {
+            if !self.no_event(m) && self.targets.contains(&m) && self.r.chance(self.c.pct_double_self) && v.len() >= 2
+            {
+                for _ in 0..2 { let p = self.p(); let at = self.r.below(v[0].len() as u64 + 1) as usize; v[0].insert(at, Op::SysEvent(m, p)); }
+                let p = self.p();
+                let at = self.r.below(v[1].len() as u64 + 1) as usize;
+                v[1].insert(at, if self.r.chance(70) { Op::SysEvent(m, p) } else { Op::Run(m) });
+            }
+        }
         v.push(Vec::new());
         v
     }
@@ -853,7 +870,23 @@ pub fn generate(seed: u64, base: &Cfg) -> Program
                 }
                 continue;
             }
-            if let Some(wop) = g.wop(&w, None, true) { let gc_after = matches!(wop, WOp::DropSysRc(_)); steps.push(Step::Direct(wop)); if gc_after { steps.push(Step::Direct(WOp::Gc)); } }
+            if let Some(wop) = g.wop(&w, None, true)
+            {
+                let gc_after = matches!(wop, WOp::DropSysRc(_));
+                // a system inserted into an entity, called, inserted *again* into the same entity (a new registration: fresh state,
+                // possibly another function) and called again
+                let again = match wop { WOp::InsertSys(k, s, key) if k < 2 && g.r.chance(50) => Some((k, s, key)), _ => None };
+                steps.push(Step::Direct(wop));
+                if gc_after { steps.push(Step::Direct(WOp::Gc)); }
+                if let Some((k, s, key)) = again
+                {
+                    let (v1, v2) = (g.r.below(50) as u32, g.r.below(50) as u32);
+                    let key2 = if g.r.chance(50) { key } else { (key + 1) % 3 };
+                    steps.push(Step::Direct(WOp::Syscall(SysKind::Spawned, k, v1)));
+                    steps.push(Step::Direct(WOp::InsertSys(k, s, key2)));
+                    steps.push(Step::Direct(WOp::Syscall(SysKind::Spawned, k, v2)));
+                }
+            }
             continue;
         }
         let n = g.r.range(g.c.ops_per_batch.0, g.c.ops_per_batch.1);
